@@ -7,7 +7,7 @@
 (* All deviations are read-only: the wrong behaviour is a wrong or missing answer.  *)
 EXTENDS CompressorFraming, PaZipStream, TLC
 
-KnownIds == {"C02-KF3", "C02-KF7", "C02-KF8", "C02-KF16", "C02-KF17"}
+KnownIds == {"C02-KF3", "C02-KF7", "C02-KF8"}
 
 HasF(e, f) == f \in DOMAIN e
 
